@@ -53,8 +53,8 @@ type lvLog struct {
 	// re-entrancy: what a handler does when it handles an event on the core level, i.e. inside
 	// Publish on the publishing goroutine (written before the first subscription); the
 	// publication in progress picks the script
-	hs      []*lvHandler
-	scripts map[*lvHandler][][]lvAct
+	hs      []api.EventHandlerInterface
+	scripts map[int][][]lvAct // by handler index
 	pick    int
 	done    []lvAct // the actions executed during the publication in progress, in order
 }
@@ -81,23 +81,38 @@ func (a lvAct) String() string {
 
 func (h *lvHandler) HandleEvent(p api.EventPayload) {
 	at := world.Stamp()
-	g := gid()
 	h.log.mu.Lock()
 	id, ok := h.log.ids[h]
+	h.log.mu.Unlock()
 	if !ok {
 		id = -1 // an object the case never created; shows up as a delivery without subscription
 	}
-	onCore := g == h.log.pub
-	h.log.dels = append(h.log.dels, lvDelivery{h: id, key: p.Ski, sync: onCore, at: at})
+	h.log.handle(id, at, p)
+}
+
+// lvValHandler is a handler that is a struct VALUE with a value receiver (a comparable type): the
+// handler is that value, every copy of it is the same handler.
+type lvValHandler struct {
+	id  int
+	log *lvLog
+}
+
+func (h lvValHandler) HandleEvent(p api.EventPayload) { h.log.handle(h.id, world.Stamp(), p) }
+
+func (lg *lvLog) handle(id int, at uint64, p api.EventPayload) {
+	g := gid()
+	lg.mu.Lock()
+	onCore := g == lg.pub
+	lg.dels = append(lg.dels, lvDelivery{h: id, key: p.Ski, sync: onCore, at: at})
 	var script []lvAct
-	if sc := h.log.scripts[h]; onCore && len(sc) > 0 {
-		script = sc[h.log.pick%len(sc)]
+	if sc := lg.scripts[id]; onCore && id >= 0 && len(sc) > 0 {
+		script = sc[lg.pick%len(sc)]
 	}
-	h.log.mu.Unlock()
+	lg.mu.Unlock()
 	// handlers may subscribe and unsubscribe while handling an event; from a core level handler
 	// that happens while the publication is being dispatched
 	for _, a := range script {
-		target := h.log.hs[a.h]
+		target := lg.hs[a.h]
 		switch {
 		case a.sub && a.viaAPI:
 			_ = spine.Events.Subscribe(target)
@@ -109,9 +124,9 @@ func (h *lvHandler) HandleEvent(p api.EventPayload) {
 			_ = spine.VerifUnsubscribe(a.level, target)
 		}
 		a.by = id
-		h.log.mu.Lock()
-		h.log.done = append(h.log.done, a)
-		h.log.mu.Unlock()
+		lg.mu.Lock()
+		lg.done = append(lg.done, a)
+		lg.mu.Unlock()
 	}
 }
 
@@ -120,14 +135,22 @@ func TestHandlerLevels(t *testing.T) {
 	lname := map[api.EventHandlerLevel]string{api.EventHandlerLevelCore: "core", api.EventHandlerLevelApplication: "application"}
 	rapid.Check(t, world.Prop(func(t *rapid.T) {
 		world.ResetEvents()
-		log := &lvLog{ids: map[*lvHandler]int{}, scripts: map[*lvHandler][][]lvAct{}}
+		log := &lvLog{ids: map[*lvHandler]int{}, scripts: map[int][][]lvAct{}}
 		nH := rapid.IntRange(1, 4).Draw(t, "handlers")
-		hs := make([]*lvHandler, nH)
+		hs := make([]api.EventHandlerInterface, nH)
 		cfgs := make([]int, nH)
+		values := false
 		for i := range hs {
-			cfgs[i] = rapid.SampledFrom([]int{0, 0, 1}).Draw(t, fmt.Sprintf("h%dcfg", i))
-			hs[i] = &lvHandler{cfg: cfgs[i], log: log}
-			log.ids[hs[i]] = i
+			// cfg -1: the handler is a struct value (value receiver), not a pointer to an object
+			cfgs[i] = rapid.SampledFrom([]int{0, 0, 1, -1}).Draw(t, fmt.Sprintf("h%dcfg", i))
+			if cfgs[i] == -1 {
+				hs[i] = lvValHandler{id: i, log: log}
+				values = true
+				continue
+			}
+			o := &lvHandler{cfg: cfgs[i], log: log}
+			log.ids[o] = i
+			hs[i] = o
 		}
 		log.hs = hs
 		var shown []string
@@ -141,7 +164,7 @@ func TestHandlerLevels(t *testing.T) {
 					act.viaAPI = act.level == api.EventHandlerLevelApplication && rapid.Bool().Draw(t, lb+"api")
 					sc = append(sc, act)
 				}
-				log.scripts[hs[i]] = append(log.scripts[hs[i]], sc)
+				log.scripts[i] = append(log.scripts[i], sc)
 				shown = append(shown, fmt.Sprintf("h%d/script%d on the core level: %v", i, s, sc))
 			}
 		}
@@ -156,9 +179,10 @@ func TestHandlerLevels(t *testing.T) {
 			}
 		}()
 		base := runtime.NumGoroutine()
-		hist := []string{fmt.Sprintf("content of the handler objects h0..: %v", cfgs)}
+		hist := []string{fmt.Sprintf("content of the handler objects h0.. (-1: a struct value with a value receiver): %v", cfgs)}
 		hist = append(hist, shown...)
 		both, pubs, afterUnsub, reentered, reCoreSub := false, 0, false, false, false
+		lastKey, repeated := "", false
 		steps := rapid.IntRange(3, 14).Draw(t, "steps")
 		for i := 0; i < steps; i++ {
 			kind := rapid.SampledFrom([]string{"sub", "sub", "unsub", "publish", "publish"}).Draw(t, fmt.Sprintf("s%d", i))
@@ -195,7 +219,16 @@ func TestHandlerLevels(t *testing.T) {
 			case "publish":
 				pubs++
 				key := fmt.Sprintf("e%d", pubs)
+				// two publications are two events, whatever they carry: some repeat the previous payload exactly
+				if pubs > 1 && rapid.IntRange(0, 2).Draw(t, fmt.Sprintf("s%drepeat", i)) == 0 {
+					key = lastKey
+					repeated = true
+				}
+				lastKey = key
 				hist = append(hist, "publish "+key)
+				log.mu.Lock()
+				from := len(log.dels) // every earlier publication was followed by a barrier
+				log.mu.Unlock()
 				for h := 0; h < nH; h++ {
 					if subscribed[sub{h, api.EventHandlerLevelCore}] && subscribed[sub{h, api.EventHandlerLevelApplication}] {
 						both = true
@@ -218,7 +251,7 @@ func TestHandlerLevels(t *testing.T) {
 					stuck(t, "the goroutines started for application handlers did not finish")
 				}
 				log.mu.Lock()
-				dels := append([]lvDelivery(nil), log.dels...)
+				dels := append([]lvDelivery(nil), log.dels[from:]...)
 				done := append([]lvAct(nil), log.done...)
 				log.mu.Unlock()
 				// (un)subscriptions issued from inside core level handlers, i.e. while this publication
@@ -232,7 +265,7 @@ func TestHandlerLevels(t *testing.T) {
 				var lastCore, firstApp uint64
 				for _, d := range dels {
 					if d.key != key {
-						continue
+						world.Fail(t, "C15/levels/unpublished-event-delivered", "during publication %s h%d received an event %q\nhistory: %v", key, d.h, d.key, hist)
 					}
 					l := "application"
 					if d.sync {
@@ -303,7 +336,19 @@ func TestHandlerLevels(t *testing.T) {
 		if reCoreSub {
 			labels = append(labels, "levels/new-core-subscription-during-dispatch")
 		}
-		if alike(cfgs) {
+		if repeated {
+			labels = append(labels, "levels/payload-repeated")
+		}
+		if values {
+			labels = append(labels, "levels/value-typed-handler")
+		}
+		var objCfgs []int
+		for _, c := range cfgs {
+			if c >= 0 {
+				objCfgs = append(objCfgs, c)
+			}
+		}
+		if alike(objCfgs) {
 			labels = append(labels, "levels/handlers-alike")
 		}
 		world.Record(world.Hash("levels", nH, cfgs, hist), both && afterUnsub, labels...)
